@@ -1,6 +1,7 @@
 package main
 
 import (
+	"strconv"
 	"fmt"
 	"go/ast"
 	"go/constant"
@@ -182,6 +183,7 @@ func propC14(w *World, r *Report) {
 		}
 	}
 	checkXExt(w, r)
+	checkTagPad(w, r)
 	checkUTF16(w, r)
 	checkMacRoman1(w, r)
 	checkNameIDs(w, r)
@@ -526,4 +528,135 @@ func checkPascal(w *World, r *Report) {
 	if n == 0 {
 		r.Fatal("pascal: no byte(len(name)) found in post.Info.Encode")
 	}
+}
+
+// checkTagPad: OpenType language tags are padded to four bytes with spaces;
+// the literal table langBcp47 has keys with up to K trailing spaces.  The
+// language subtag that otfToBCP47 appends to the private-use extension must
+// have all of them removed (a BCP 47 subtag cannot contain a space, the tag
+// would not parse and the language system would be dropped on reading).
+func checkTagPad(w *World, r *Report) {
+	r.Rule("tagpad: the OpenType language tag appended to the -x- extension by otfToBCP47 has all its padding spaces removed: the value comes from a loop that strips a trailing space while there is one, or from strings.TrimRight/TrimSpace; k nested strings.TrimSuffix(_, \" \") calls remove only k spaces and the tag table has keys with more")
+	lit, info, err := pkgVarLiteral(w, "opentype/gtab", "langBcp47")
+	key := r.MkKey("tagpad", "gtab.otfToBCP47", "language subtag")
+	if err != nil {
+		r.FailC("tagpad", key, []string{"missing"}, "-", err.Error(), nil)
+		return
+	}
+	maxPad := 0
+	for _, el := range lit.Elts {
+		kv, ok := el.(*ast.KeyValueExpr)
+		if !ok {
+			continue
+		}
+		k, ok := constText(info, kv.Key)
+		if !ok {
+			continue
+		}
+		if s, err := strconv.Unquote(k); err == nil {
+			k = s
+		}
+		pad := len(k) - len(strings.TrimRight(k, " "))
+		if pad > maxPad {
+			maxPad = pad
+		}
+	}
+	fn := w.Func("opentype/gtab.otfToBCP47")
+	if fn == nil || len(fn.Params) < 2 {
+		r.Fatal("anchor gtab.otfToBCP47 does not resolve")
+		return
+	}
+	lang := fn.Params[1]
+	// the values derived from lang that are concatenated into the tag
+	removed := -1 // -1: unbounded
+	var classify func(v ssa.Value, depth int) (int, bool)
+	classify = func(v ssa.Value, depth int) (int, bool) {
+		if depth > 8 {
+			return 0, false
+		}
+		switch x := v.(type) {
+		case *ssa.Parameter:
+			if x == lang {
+				return 0, true
+			}
+		case *ssa.ChangeType:
+			return classify(x.X, depth+1)
+		case *ssa.Convert:
+			return classify(x.X, depth+1)
+		case *ssa.Phi:
+			// a loop that reslices while the last byte is a space
+			if isLoopPhi(x) {
+				for _, e := range x.Edges {
+					if sl, ok := e.(*ssa.Slice); ok && sl.X == ssa.Value(x) {
+						return -1, true
+					}
+				}
+			}
+			best, okAny := 0, false
+			for _, e := range x.Edges {
+				if e == ssa.Value(x) {
+					continue
+				}
+				if n, ok := classify(e, depth+1); ok {
+					if !okAny || (n >= 0 && (best < 0 || n < best)) {
+						best = n
+					}
+					okAny = true
+				}
+			}
+			return best, okAny
+		case *ssa.Call:
+			if c := x.Call.StaticCallee(); c != nil && c.Pkg != nil && c.Pkg.Pkg.Path() == "strings" && len(x.Call.Args) >= 1 {
+				n, ok := classify(x.Call.Args[0], depth+1)
+				if !ok {
+					return 0, false
+				}
+				switch c.Name() {
+				case "TrimRight", "TrimSpace", "Trim", "TrimRightFunc":
+					return -1, true
+				case "TrimSuffix":
+					if n < 0 {
+						return -1, true
+					}
+					return n + 1, true
+				}
+			}
+		case *ssa.Slice:
+			return classify(x.X, depth+1)
+		}
+		return 0, false
+	}
+	found := false
+	for _, b := range fn.Blocks {
+		for _, in := range b.Instrs {
+			bo, ok := in.(*ssa.BinOp)
+			if !ok || bo.Op != token.ADD {
+				continue
+			}
+			if bt, ok := bo.Type().Underlying().(*types.Basic); !ok || bt.Info()&types.IsString == 0 {
+				continue
+			}
+			for _, op := range []ssa.Value{bo.X, bo.Y} {
+				if n, ok := classify(op, 0); ok {
+					if _, isParam := op.(*ssa.Parameter); isParam && n == 0 {
+						removed, found = 0, true
+						continue
+					}
+					if !found || (n >= 0 && (removed < 0 || n < removed)) {
+						removed = n
+					}
+					found = true
+				}
+			}
+		}
+	}
+	switch {
+	case !found:
+		r.Fail("tagpad", key, w.Pos(fn.Pos()), "no string concatenation of a value derived from the language tag found in otfToBCP47", nil)
+	case removed < 0 || removed >= maxPad:
+		r.OK("tagpad", key, w.Pos(fn.Pos()), fmt.Sprintf("all trailing spaces are removed (the table has keys with up to %d)", maxPad))
+	default:
+		r.Fail("tagpad", key, w.Pos(fn.Pos()), fmt.Sprintf("at most %d trailing space(s) are removed from the language tag before it is appended to the BCP 47 tag, but langBcp47 has keys with %d padding spaces: such a tag does not parse and the language system is lost on reading", removed, maxPad), nil)
+	}
+	r.Floor("tagpad", 1)
 }
